@@ -75,6 +75,10 @@ type Case struct {
 	// tick-based test handlers do; the executor has to keep idling (wait, settleSerialPromises).
 	// Rounds counts the delivering calls only, so the model's run is the same.
 	LazyIdle bool `json:"lazy_idle,omitempty"`
+	// NoIdle: the request has no IdleHandler at all (against the documented rule for resolvers that
+	// return promises): `promise` invocations are never fulfilled, `pre` ones are fulfilled when
+	// returned. Only the model-free oracles apply (C11: harness/cmd/c11, noIdle).
+	NoIdle bool `json:"no_idle,omitempty"`
 	// CancelAt = k > 0: the k-th resolver called cancels the request's context (see cancel.go).
 	CancelAt int    `json:"cancel_at,omitempty"`
 	Note     string `json:"note,omitempty"`
